@@ -57,30 +57,35 @@ def main():
     #      Proofs/StudySrcP.v).  bin/build translates /repo; when the tree under test is a scratch
     #      copy (TOASTY_REPO), translate it here and check the same proofs against it privately.
     translated = None
-    TIES = {"C13": ("pyramid", "PyramidSrc", "PyramidSrcP", "toasty/pyramid.py", "position algebra and generators"),
-            "C08": ("study", "StudySrc", "StudySrcP", "toasty/study.py", "StudyTiling model"),
-            "C17": ("paths", "PathSrc", "PathSrcP", "toasty/pyramid.py (class PyramidIO, tile naming)", "naming model (Model/Paths.v)"),
-            "C07": ("script", "ScriptSrc", "ScriptSrcP", "toasty/fits_tiler.py (FitsTiler._tile_toast)", "script of calls (Model/TileToastScript.v)"),
-            "C02": ("cli_cascade", "CliCascadeSrc", "CliCascadeP", "toasty/cli.py (cascade_impl)", "model of the command (Model/CliScript.v)"),
-            "C03": ("cli_transform", "CliTransformSrc", "CliTransformP", "toasty/cli.py (transform_impl)", "model of the command (Model/CliScript.v)"),
-            "C11": ("cli_allsky", "CliAllskySrc", "CliAllskyP", "toasty/cli.py (tile_allsky_impl)", "model of the command (Model/CliScript.v)"),
-            "C20": ("cli_multi_tan", "CliMultiTanSrc", "CliMultiTanP", "toasty/cli.py (tile_multi_tan_impl, view_locally)", "models of the commands (Model/CliScript.v)")}
-    if pid in TIES:
+    TIES = {"C13": [("pyramid", "PyramidSrc", "PyramidSrcP", "toasty/pyramid.py", "position algebra and generators")],
+            "C08": [("study", "StudySrc", "StudySrcP", "toasty/study.py", "StudyTiling model")],
+            "C17": [("paths", "PathSrc", "PathSrcP", "toasty/pyramid.py (class PyramidIO, tile naming)", "naming model (Model/Paths.v)"),
+                    ("cli_wwtl", "CliWwtlSrc", "CliWwtlP", "toasty/cli.py (tile_wwtl_impl)", "model of the command (Model/CliScript.v)")],
+            "C07": [("script", "ScriptSrc", "ScriptSrcP", "toasty/fits_tiler.py (FitsTiler._tile_toast)", "script of calls (Model/TileToastScript.v)")],
+            "C02": [("cli_cascade", "CliCascadeSrc", "CliCascadeP", "toasty/cli.py (cascade_impl)", "model of the command (Model/CliScript.v)")],
+            "C03": [("cli_transform", "CliTransformSrc", "CliTransformP", "toasty/cli.py (transform_impl)", "model of the command (Model/CliScript.v)")],
+            "C11": [("cli_allsky", "CliAllskySrc", "CliAllskyP", "toasty/cli.py (tile_allsky_impl)", "model of the command (Model/CliScript.v)")],
+            "C20": [("cli_multi_tan", "CliMultiTanSrc", "CliMultiTanP", "toasty/cli.py (tile_multi_tan_impl, view_locally)", "models of the commands (Model/CliScript.v)")],
+            "C06": [("cli_healpix", "CliHealpixSrc", "CliHealpixP", "toasty/cli.py (tile_healpix_impl)", "model of the command (Model/CliScript.v)")]}
+    translated_all = []
+    for which, gen, prf, srcname, what in TIES.get(pid, []):
         import hashlib
         import py2coq
-        which, gen, prf, srcname, what = TIES[pid]
         try:
             text = {"pyramid": py2coq.translate_pyramid, "study": py2coq.translate_study,
                     "paths": py2coq.translate_paths, "script": py2coq.translate_script,
                     "cli_cascade": py2coq.translate_cli_cascade, "cli_transform": py2coq.translate_cli_transform,
-                    "cli_allsky": py2coq.translate_cli_allsky, "cli_multi_tan": py2coq.translate_cli_multi_tan}[which](common.REPO)
+                    "cli_allsky": py2coq.translate_cli_allsky, "cli_multi_tan": py2coq.translate_cli_multi_tan,
+                    "cli_healpix": py2coq.translate_cli_healpix, "cli_wwtl": py2coq.translate_cli_wwtl}[which](common.REPO)
             funcs = {"pyramid": py2coq.PYRAMID_FUNCS,
                      "study": ["next_highest_power_of_2"] + ["StudyTiling." + m for m in py2coq.STUDY_METHODS],
                      "paths": ["PyramidIO." + m for m in py2coq.PATH_METHODS],
                      "script": ["FitsTiler._tile_toast"], "cli_cascade": ["cli.cascade_impl"],
                      "cli_transform": ["cli.transform_impl"], "cli_allsky": ["cli.tile_allsky_impl"],
-                     "cli_multi_tan": ["cli.tile_multi_tan_impl", "cli.view_locally"]}[which]
+                     "cli_multi_tan": ["cli.tile_multi_tan_impl", "cli.view_locally"],
+                     "cli_healpix": ["cli.tile_healpix_impl"], "cli_wwtl": ["cli.tile_wwtl_impl"]}[which]
             translated = dict(source=srcname, functions=funcs, sha256=hashlib.sha256(text.encode()).hexdigest()[:16])
+            translated_all.append(translated)
             tree_file = common.COQ / "theories" / "Generated" / (gen + ".v")
             if not tree_file.exists() or tree_file.read_text() != text:
                 w = common.workdir() / "gen"
@@ -180,8 +185,10 @@ def main():
     coverage.update(cov)
     if pyx_info is not None:
         coverage["pyx_tie"] = pyx_info
-    if translated is not None:
-        coverage["translated_source"] = translated
+    if translated_all:
+        coverage["translated_source"] = translated_all[0]
+        if len(translated_all) > 1:
+            coverage["translated_source_more"] = translated_all[1:]
     if hist_calls is not None:
         coverage["history_independence_probe_calls"] = hist_calls
     if probes is not None:
